@@ -1,25 +1,46 @@
 from specs import KEYS, CHECKS, unit
-import os
-_DEV = {'VERIF_KNOWN': os.environ['C19_DEV_KNOWN']} if os.environ.get('C19_DEV_KNOWN') else {}  # DEV ONLY - remove
+
+# C19 - a user's token secret never leaves the cluster unsalted.
+# Notes: /verif/notes/C19.md. Shared generator/oracle/recorder: harness/vcommon/c19.
 
 KEYS['auth_c19'] = {'pkg': 'sdk/go/auth'}
 # lib/controller/localdb/login_pam.go needs cgo + <security/pam_appl.h> (not installed here);
 # the overlay presents a PAM-free stand-in (PAM login is unrelated to C19). /repo is untouched.
-C19_PAM_HOOKS = {'lib/controller/localdb/login_pam.go': 'harness/federation_c19/hooks/login_pam_nocgo.go'}
-KEYS['federation_c19'] = {'pkg': 'lib/controller/federation', 'hooks': C19_PAM_HOOKS}
-KEYS['controller_c19'] = {'pkg': 'lib/controller', 'hooks': {'lib/controller/localdb/login_pam.go': 'harness/controller_c19/hooks/login_pam_nocgo.go'}}
+# Each key carries its own copy of the stand-in so that it builds independently of other agents' keys.
+KEYS['federation_c19'] = {'pkg': 'lib/controller/federation',
+                          'hooks': {'lib/controller/localdb/login_pam.go': 'harness/federation_c19/hooks/login_pam_nocgo.go'}}
+KEYS['controller_c19'] = {'pkg': 'lib/controller',
+                          'hooks': {'lib/controller/localdb/login_pam.go': 'harness/controller_c19/hooks/login_pam_nocgo.go'}}
 KEYS['keepstore_c19'] = {'pkg': 'services/keepstore'}
 
 CHECKS['C19'] = {
-    'ready': False,
+    'ready': True,
     'level': 'exploration',
-    'rule': 'TODO',
-    'assumptions': [],
+    'rule': 'rapid-generated contexts of 1-3 tokens (v2 with secret lengths 1-80 dense at 39/40/41 and 49-51, alphabets hex/base36/alnum/printable, '
+            'uuid owned by the remote/the local cluster/a third cluster or malformed, extra path segments; legacy [0-9a-z]{41,} with local '
+            'resolution found/401/500/remote-owned; opaque strings incl. JWT shape, "v2/x", bare 40 characters), remote ids, and per level: '
+            'SaltToken; saltedTokenProvider with a stub local backend; 9 operations of a real federation.New Conn whose 2 remotes record raw '
+            'request bytes; the legacy lib/controller path with tokens placed in Authorization OAuth2/Bearer/Basic, api_token query, form body '
+            'and cookie over 5 resources x 6 request forms; keepstore remoteProxy.Get against a recording Keep service. A case is non-trivial when '
+            'at least one token is in Arvados format (v2 or legacy) and, at the wire levels, at least one forwarded request was captured and '
+            'scanned; distinct = fingerprint of (tokens, cluster ids, resolutions, operation/route). About 4 % of the cases lie in the region of '
+            'the known finding c19-40char-nonhex-secret (secret of exactly 40 non-hex characters).',
+    'assumptions': [
+        'reference salt = hex HMAC-SHA1(key=secret, msg=remote id); token grammar (v2/<uuid>/<secret>[/...], legacy [0-9a-z]{41,}) restated in vcommon/c19',
+        'RailsAPI, PostgreSQL (one SELECT of validateAPItoken), the remote API server and the remote Keep service are loopback stubs; '
+        'PAM login controller replaced by a stand-in at build time (cgo header missing)',
+        'byte-level non-disclosure search uses the secret when it has >= 12 characters, "v2/<uuid>/<secret>" for shorter secrets with a uuid of >= 20 '
+        'characters, and is skipped otherwise (about 4 % of token instances); hits are confirmed against a control request with rotated secrets',
+        '40 hex digits with upper-case letters: either treatment (salt / not a salt) accepted',
+        '"not forwarded" (fail closed) is accepted at the legacy-handler and keepstore levels except for tokens the property requires to be forwarded',
+        'not driven: ContainerRequestCreate to a remote (hands over a runtime token by design), legacy collection-by-PDH fan-out, client-supplied reader_tokens in the legacy path',
+    ],
+    'technique': 'property-based testing (rapid) with an independent reference forwarding model and a raw-byte disclosure scanner',
     'units': [
-        unit('salt', 'auth_c19', '^TestVerifC19SaltToken$', {'shards': 4, 'checks': 4000}, {'shards': 8, 'checks': 100000, 'timeout': 900}, env=_DEV),
-        unit('provider', 'federation_c19', '^TestVerifC19Provider$', {'shards': 4, 'checks': 3000}, {'shards': 8, 'checks': 60000, 'timeout': 900}, env=_DEV),
-        unit('conn', 'federation_c19', '^TestVerifC19Conn$', {'shards': 4, 'checks': 1500}, {'shards': 8, 'checks': 30000, 'timeout': 900}, env=_DEV),
-        unit('legacy', 'controller_c19', '^TestVerifC19LegacyHandler$', {'shards': 4, 'checks': 1500}, {'shards': 8, 'checks': 30000, 'timeout': 900}, env=_DEV),
-        unit('keepstore', 'keepstore_c19', '^TestVerifC19KeepstoreRemoteProxy$', {'shards': 4, 'checks': 1500}, {'shards': 8, 'checks': 30000, 'timeout': 900}, env=_DEV),
+        unit('salt', 'auth_c19', '^TestVerifC19SaltToken$', {'shards': 4, 'checks': 4000}, {'shards': 8, 'checks': 100000, 'timeout': 900}),
+        unit('provider', 'federation_c19', '^TestVerifC19Provider$', {'shards': 4, 'checks': 3000}, {'shards': 8, 'checks': 60000, 'timeout': 900}),
+        unit('conn', 'federation_c19', '^TestVerifC19Conn$', {'shards': 4, 'checks': 1500}, {'shards': 8, 'checks': 30000, 'timeout': 900}),
+        unit('legacy', 'controller_c19', '^TestVerifC19LegacyHandler$', {'shards': 4, 'checks': 1500}, {'shards': 8, 'checks': 30000, 'timeout': 900}),
+        unit('keepstore', 'keepstore_c19', '^TestVerifC19KeepstoreRemoteProxy$', {'shards': 4, 'checks': 1500}, {'shards': 8, 'checks': 30000, 'timeout': 900}),
     ],
 }
